@@ -1,5 +1,7 @@
 (* Proofs about the AOF file model: the buffered reader delivers exactly the 64-byte records of the stream
-   (bufio elimination), the loader on a crash image delivers an expiry-filtered prefix of the written records
+   (bufio elimination), the byte-exact ReadLockData (through the bufio reader of the value file, with its continuation
+   loops) delivers exactly "the next 4+len bytes or EOF" for every reader state (bufio elimination for values; the caps
+   of the executable model are unobservable), the loader on a crash image delivers an expiry-filtered prefix of the written records
    (repaired variant: every crash image; today's variant: cuts at record boundaries), every crash image of the
    write model has the crash shape, second restart, and the refutations for today's variant. *)
 From Coq Require Import List NArith ZArith Bool Lia PeanoNat.
